@@ -121,10 +121,10 @@ impl Property for C02 {
         }
     }
     fn required_labels(&self, _tier: Tier) -> Vec<&'static str> {
-        vec!["nontrivial", "same-id-two-kinds", "rec-without-terms", "link-on-term-and-ancestor"]
+        vec!["nontrivial", "ancestors>30", "same-id-two-kinds", "rec-without-terms", "link-on-term-and-ancestor"]
     }
     fn run_generated(&self, tier: Tier, seed: u64, n: u64, stats: &mut Stats) -> Option<(Value, Failure)> {
-        let max = if tier == Tier::Quick { 20 } else { 70 };
+        let max = if tier == Tier::Quick { 34 } else { 90 };
         run_typed(ont_case_strategy(max, 8, false), seed, n, stats, check)
     }
     fn replay(&self, case: &Value, stats: &mut Stats) -> Result<CheckResult, String> {
